@@ -3,7 +3,7 @@
    accepted pushes; the stream length octets equal the message length. *)
 From Coq Require Import NArith List Bool Lia ZArith.
 From Coq Require Import ZifyN ZifyBool ZifyNat.
-From DV Require Import Base.Outcome Base.Bytes Base.Names Base.PName C02.Gen C02.Model C02.ProofsBasic.
+From DV Require Import Base.Outcome Base.Bytes Base.Names Base.PName C02.Gen C02.Model C02.ProofsBasic C02.ProofsClone.
 Import ListNotations.
 Local Open Scope N_scope.
 Ltac Zify.zify_post_hook ::= Z.div_mod_to_equations.
@@ -89,7 +89,7 @@ Proof.
     + split; auto.
     + unfold alive in AL. congruence.
   - destruct (N.eqb_spec (b_sec s) 3) as [E0|E0]; [|injection H as <- <-; split; auto].
-    destruct (mb_push_cases c s (compose_opt c oh opts) HB (compose_opt_spec c oh opts))
+    destruct (mb_push_cases c s (opt_writer c oh opts) HB (opt_writer_spec c oh opts))
       as [(w' & _ & E & X & TB' & SI' & _)|[(e' & E)|(x & E & D)]]; rewrite E in H; cbn [fst snd] in H; injection H as <- <-.
     + split; [apply BW_set_hdr; apply BW_push_ok; auto|]. cbn [acc_step]. apply CountInv_set_hdr. apply CountInv_push_r; auto. lia.
     + split; [apply BW_set_hdr; auto|apply CountInv_set_hdr; auto].
